@@ -985,6 +985,18 @@ public:
         sandbox_callback_interceptor<detail::rlbox_remove_wrapper_t<T_Ret>,
                                      detail::rlbox_remove_wrapper_t<T_Args>...>;
 
+      // If the backend refuses the registration (e.g. no free entry point),
+      // the function is not registered: forget the key again, otherwise it
+      // could never be registered on this sandbox later
+      auto forget_key_on_failure = detail::make_scope_exit([&] {
+        std::lock_guard<std::mutex> lock(callback_lock);
+        auto el_ref =
+          std::find(callback_keys.begin(), callback_keys.end(), unique_key);
+        if (el_ref != callback_keys.end()) {
+          callback_keys.erase(el_ref);
+        }
+      });
+
       auto callback_trampoline = this->template impl_register_callback<
         detail::convert_to_sandbox_equivalent_t<
           detail::rlbox_remove_wrapper_t<T_Ret>,
@@ -992,6 +1004,8 @@ public:
         detail::convert_to_sandbox_equivalent_t<
           detail::rlbox_remove_wrapper_t<T_Args>,
           T_Sbx>...>(unique_key, reinterpret_cast<void*>(callback_interceptor));
+
+      forget_key_on_failure.release();
 
       auto tainted_func_ptr = reinterpret_cast<
         detail::rlbox_tainted_opaque_to_tainted_t<T_Ret, T_Sbx> (*)(
